@@ -262,6 +262,166 @@ def first_diff(a, b, path=''):
     return None
 
 
+# ---- inlined normal form: own schedule-level helpers expanded in place, blocks flattened -------------------
+# Used only as a second opinion: when the per-function comparison of two siblings differs (for instance because
+# one engine's schedule was split into helpers and the other's was not), the siblings still agree if their fully
+# inlined forms are equal.
+
+def _has(node, kinds):
+    if isinstance(node, list):
+        return any(_has(x, kinds) for x in node)
+    if not isinstance(node, dict):
+        return False
+    if node.get('k') in kinds:
+        return True
+    return any(_has(v, kinds) for v in node.values() if isinstance(v, (dict, list)))
+
+
+def _pure_arg(n):
+    """argument expressions that may be substituted for an immutable parameter: built from locals, literals,
+    field reads, arithmetic, casts and (re)borrows only"""
+    if not isinstance(n, dict):
+        return True
+    k = n.get('k')
+    if k in ('path', 'lit'):
+        return True
+    if k == 'bin' and not n.get('overloaded'):
+        return _pure_arg(n['l']) and _pure_arg(n['r'])
+    if k in ('un', 'cast', 'addrof', 'field'):
+        return all(_pure_arg(v) for v in n.values() if isinstance(v, dict))
+    return False
+
+
+class Expander:
+    def __init__(self, facts, adt):
+        self.facts = facts
+        self.adt = adt
+        self.count = 0
+        self.inlined = []
+
+    def inlinable(self, path, args):
+        g = self.facts.fns.get(path) if path else None
+        if g is None or g.impl_self_adt != self.adt or g.impl_trait or not g.hir or not takes_shards(g):
+            return None
+        params = g.hir.get('params', [])
+        if len(params) != len(args):
+            return None
+        for pt, a in zip(params, args):
+            if pt.get('k') != 'bind' or not pt.get('mode', '').endswith('Not)') or not _pure_arg(a):
+                return None
+        if _has(g.hir['value'], ('ret', 'closure')):
+            return None
+        return g
+
+    def expr(self, n, depth):
+        """rewrite a subtree: own schedule helpers replaced by their (recursively expanded) bodies"""
+        if isinstance(n, list):
+            return [self.expr(x, depth) for x in n]
+        if not isinstance(n, dict):
+            return n
+        if n.get('k') == 'mcall' and depth < 6:
+            args = [n['recv']] + list(n['args'])
+            g = self.inlinable(n.get('path'), args)
+            if g is not None:
+                from .c05 import subst_hir
+                self.count += 1
+                self.inlined.append(g.path)
+                args = [self.expr(a, depth) for a in args]
+                mapping = {pt['id']: a for pt, a in zip(g.hir['params'], args)}
+                body = subst_hir(g.hir['value'], mapping, 1000000 * self.count)
+                return self.expr(body, depth + 1)
+        out = {}
+        for k, v in n.items():
+            out[k] = self.expr(v, depth) if isinstance(v, (dict, list)) else v
+        if out.get('k') == 'block':
+            out = self.flatten(out)
+        return out
+
+    def flatten(self, b):
+        """`{ ..; { s1; s2; t }; .. }` -> `{ ..; s1; s2; t; .. }` and `let x = { s1; t };` -> `s1; let x = t;` (locals are
+        identified by id, so hoisting cannot capture), then immutable aliases `let a = b` of a local are renamed away"""
+        stmts = []
+
+        def push_block(x):
+            for s in x.get('stmts', []):
+                stmts.append(s)
+            return x.get('tail')
+        for s in b.get('stmts', []):
+            if s['k'] == 'let' and isinstance(s.get('init'), dict) and s['init'].get('k') == 'block' and 'else' not in s and not s['init'].get('unsafe'):
+                t = push_block(s['init'])
+                s = dict(s)
+                if t is None:
+                    t = {'k': 'tup', 'xs': []}
+                s['init'] = t
+                stmts.append(s)
+            elif s['k'] == 'expr' and isinstance(s.get('e'), dict) and s['e'].get('k') == 'block' and not s['e'].get('unsafe'):
+                t = push_block(s['e'])
+                if t is not None:
+                    stmts.append({'k': 'expr', 'e': t})
+            else:
+                stmts.append(s)
+        tail = b.get('tail')
+        if isinstance(tail, dict) and tail.get('k') == 'block' and not tail.get('unsafe'):
+            tail = push_block(tail)
+        out = dict(b)
+        out['stmts'] = stmts
+        out['tail'] = tail
+        # alias elimination
+        ren = {}
+        keep = []
+        for s in stmts:
+            if s['k'] == 'let' and 'else' not in s and s.get('pat', {}).get('k') == 'bind' and s['pat'].get('mode', '').endswith('Not)') \
+                    and isinstance(s.get('init'), dict) and s['init'].get('k') == 'path' and s['init'].get('res') == 'local' \
+                    and s['init']['id'] >= 1000000 and s['pat'].get('ty') in ('usize', 'u16', 'u32', 'u64', 'bool', 'u8'):
+                ren[s['pat']['id']] = s['init']
+                continue
+            keep.append(s)
+        if ren:
+            out['stmts'] = keep
+            out = _rename(out, ren)
+        # a tail expression in statement position and a trailing expression statement are the same thing for ()-valued code
+        return out
+
+    def expand_fn(self, fn):
+        return self.expr(fn.hir['value'], 0)
+
+
+def _rename(n, ren):
+    if isinstance(n, list):
+        return [_rename(x, ren) for x in n]
+    if not isinstance(n, dict):
+        return n
+    if n.get('k') == 'path' and n.get('res') == 'local' and n.get('id') in ren:
+        return _rename(ren[n['id']], ren)
+    return {k: (_rename(v, ren) if isinstance(v, (dict, list)) else v) for k, v in n.items()}
+
+
+def _unit_tail(n):
+    """normalise `{ s; t }` where t is a ()-typed expression to `{ s; t; }` so that statement/tail position of the last
+    loop or call does not matter"""
+    if isinstance(n, list):
+        return [_unit_tail(x) for x in n]
+    if not isinstance(n, dict):
+        return n
+    out = {k: (_unit_tail(v) if isinstance(v, (dict, list)) else v) for k, v in n.items()}
+    if out.get('k') == 'block' and isinstance(out.get('tail'), dict) and out['tail'].get('ty') == '()':
+        out['stmts'] = list(out.get('stmts', [])) + [{'k': 'expr', 'e': out['tail']}]
+        out['tail'] = None
+    return out
+
+
+def inlined_form(facts, adt, entries):
+    nf = NF(facts, adt)
+    ex = Expander(facts, adt)
+    forms = []
+    nf.locals = {}
+    for name, f in entries:
+        tree = _unit_tail(ex.expand_fn(f))
+        nf.locals = {}
+        forms.append((name, nf.node(tree)))
+    return forms, ex.inlined
+
+
 def engine_adts(facts):
     out = {}
     for f in facts.fns.values():
@@ -274,6 +434,7 @@ def schedules(ctx, facts, cfg):
     R = 'C03.a-schedule-siblings'
     engs = engine_adts(facts)
     forms = {}
+    entries_of = {}
     for adt, ms in sorted(engs.items()):
         if adt.endswith('::Naive') or adt.endswith('::DefaultEngine'):
             continue
@@ -315,6 +476,7 @@ def schedules(ctx, facts, cfg):
                 fn_forms.append((i, p, None))     # kernel level: legitimately differs, not compared
             i += 1
         forms[adt] = fn_forms
+        entries_of[adt] = entries
     if len(forms) < 2:
         ctx.violation(R, 'too-few-engines', 'fewer than two optimised engines found in cfg %s' % cfg, cfg=cfg)
         return
@@ -322,26 +484,42 @@ def schedules(ctx, facts, cfg):
     ref = forms[ref_adt]
     nsched = sum(1 for x in ref if x[2] is not None)
     ctx.floor(R, 4, nsched, 'schedule functions of %s (cfg %s)' % (ref_adt, cfg), cfg=cfg)
+    ref_inl = None
     for adt, ff in sorted(forms.items()):
         if adt == ref_adt:
             continue
+        viol = []
         if [x[2] is None for x in ff] != [x[2] is None for x in ref]:
-            ctx.violation(R, 'shape:%s' % adt.split('::')[-1], 'helper structure of %s differs from %s: schedule/kernel roles by order of first use are %s vs %s'
-                          % (adt, ref_adt, [(core.short(x[1]), 'sched' if x[2] is not None else 'kernel') for x in ff],
-                             [(core.short(x[1]), 'sched' if x[2] is not None else 'kernel') for x in ref]), fn=adt, cfg=cfg)
+            viol.append(('shape:%s' % adt.split('::')[-1], 'helper structure of %s differs from %s: schedule/kernel roles by order of first use are %s vs %s'
+                         % (adt, ref_adt, [(core.short(x[1]), 'sched' if x[2] is not None else 'kernel') for x in ff],
+                            [(core.short(x[1]), 'sched' if x[2] is not None else 'kernel') for x in ref]), dict(fn=adt)))
+        else:
+            for (i, p, form), (_, rp, rform) in zip(ff, ref):
+                if form is None:
+                    continue
+                d = first_diff(rform, form)
+                name = p.split('::')[-1]
+                if d is not None:
+                    viol.append(('%s:%s' % (adt.split('::')[-1], name),
+                                 'schedule function %s differs from its sibling %s at %s: %s has `%s`, %s has `%s`'
+                                 % (p, rp, d[0], ref_adt.split('::')[-1], brief(d[1]), adt.split('::')[-1], brief(d[2])),
+                                 dict(site=facts.fns[p].span, fn=p)))
+        if viol:
+            # second opinion: the fully inlined forms (helpers expanded in place) agree -> same schedule, differently factored
+            if ref_inl is None:
+                ref_inl = inlined_form(facts, ref_adt, entries_of[ref_adt])
+            inl = inlined_form(facts, adt, entries_of[adt])
+            if all(first_diff(a[1], b[1]) is None for a, b in zip(ref_inl[0], inl[0])) and len(ref_inl[0]) == len(inl[0]):
+                ctx.ok(R, '%s~%s:inlined@%s' % (adt.split('::')[-1], ref_adt.split('::')[-1], cfg),
+                       'per-function forms differ (%s) but the forms with the schedule helpers inlined (%d in %s, %d in %s) are identical'
+                       % (viol[0][0], len(inl[1]), adt.split('::')[-1], len(ref_inl[1]), ref_adt.split('::')[-1]))
+                continue
+            for key, msg, kw in viol:
+                ctx.violation(R, key, msg, cfg=cfg, **kw)
             continue
         for (i, p, form), (_, rp, rform) in zip(ff, ref):
-            if form is None:
-                continue
-            d = first_diff(rform, form)
-            name = p.split('::')[-1]
-            if d is None:
-                ctx.ok(R, '%s~%s:%s@%s' % (adt.split('::')[-1], ref_adt.split('::')[-1], name, cfg), None)
-            else:
-                ctx.violation(R, '%s:%s' % (adt.split('::')[-1], name),
-                              'schedule function %s differs from its sibling %s at %s: %s has `%s`, %s has `%s`'
-                              % (p, rp, d[0], ref_adt.split('::')[-1], brief(d[1]), adt.split('::')[-1], brief(d[2])),
-                              site=facts.fns[p].span, fn=p, cfg=cfg)
+            if form is not None:
+                ctx.ok(R, '%s~%s:%s@%s' % (adt.split('::')[-1], ref_adt.split('::')[-1], p.split('::')[-1], cfg), None)
 
 
 def brief(x):
